@@ -119,3 +119,59 @@ Theorem closed_is_final : forall w s t th,
   (t_born_closed th = true -> closed s = true) /\ (t_born_done th = true -> done s = true).
 Proof. exact born_closed_stays_closed. Qed.
 Print Assumptions closed_is_final.
+
+(* ---- phase 2: further ties to the Gallina regenerated from the Go source (proofs/GenTie_C16.v) ---- *)
+From Coq Require Import ZArith NArith List Bool Lia String.
+From Lib Require Import Bytes.
+From Model Require Import Announce_Receiver C16_ReceiverClose.
+From Proofs Require Import GenTie_Lib.
+From Gen Require Import Gen_Consts Gen_Funcs_prelude Gen_Funcs_announce.
+Import ListNotations.
+Local Open Scope Z_scope.
+From Proofs Require Import GenTie_C16.
+
+Theorem gen_tie_Receiver_Close : forall (CF SD SUB TOP : Type) (nilCF : CF -> bool) (nilSD : SD -> bool) (nilSUB : SUB -> bool) (closeSD : SD -> option string) (closeTOP : TOP -> option string) (cancelPubsub cancelWatch : CF) (sender : SD) (topic : TOP) (sub : SUB) (closed : bool), match go_close CF SD SUB TOP nilCF nilSD nilSUB closeSD closeTOP cancelPubsub cancelWatch sender topic sub closed with | FReturn ret (closed', tr) => pcs closed tr = close_path closed (negb (nilCF cancelWatch)) /\ closed' = true /\ (closed = true -> ret = "return nil" /\ tr = ["r.announceMutex.Lock()"; "r.announceMutex.Unlock()"]) | _ => False end.
+Proof. exact GenTie_C16.tie_Receiver_Close. Qed.
+Print Assumptions gen_tie_Receiver_Close.
+
+Theorem gen_Close_cancels_sub_under_lock : forall (CF SD SUB TOP : Type) (nilCF : CF -> bool) (nilSD : SD -> bool) (nilSUB : SUB -> bool) (closeSD : SD -> option string) (closeTOP : TOP -> option string) (cancelPubsub cancelWatch : CF) (sender : SD) (topic : TOP) (sub : SUB), match go_close CF SD SUB TOP nilCF nilSD nilSUB closeSD closeTOP cancelPubsub cancelWatch sender topic sub false with | FReturn _ (_, tr) => nilSUB sub = false -> exists rest : list string, tr = "r.announceMutex.Lock()" :: "r.closed = true" :: "r.topicSub.Cancel()" :: "r.announceMutex.Unlock()" :: "close(r.done)" :: rest | _ => False end.
+Proof. exact GenTie_C16.Close_cancels_sub_under_lock. Qed.
+Print Assumptions gen_Close_cancels_sub_under_lock.
+
+Theorem gen_model_close_order : forall (s : st) (t : nat) (th : thread) (c : nat),
+  (t_pc th = ClCheck -> step_thread s t th c = goto s t th (if closed s then ClEarlyUnlock else ClSet)) /\
+  (t_pc th = ClEarlyUnlock -> step_thread s t th c = ret (with_mu s None) t th RetEarly) /\
+  (t_pc th = ClSet -> step_thread s t th c = goto (do_set_closed s) t th ClUnlock) /\
+  (t_pc th = ClUnlock -> step_thread s t th c = goto (with_mu s None) t th ClCloseDone) /\
+  (t_pc th = ClCloseDone -> step_thread s t th c = goto (do_close_done s) t th ClCancelWatch) /\
+  (t_pc th = ClCancelWatch -> step_thread s t th c =
+     if has_watcher s then goto (do_cancel_watch s) t th ClWaitWatch else ret s t th RetNil).
+Proof. exact GenTie_C16.model_close_order. Qed.
+Print Assumptions gen_model_close_order.
+
+Theorem gen_tie_UncacheCid :
+  announce_Receiver_UncacheCid
+  = FFall ["r.announceMutex.Lock()"; "r.announceCache.remove(adCid.String())"; "r.announceMutex.Unlock()"]%string.
+Proof. exact GenTie_C16.tie_UncacheCid. Qed.
+Print Assumptions gen_tie_UncacheCid.
+
+Theorem gen_tie_announceCheck_closed : forall (T : Type) (isnil : T -> bool) (allow : T) (called closed hit : bool),
+  read_check (announce_announceCheck T isnil called hit allow closed)
+  = Some (check_result (isnil allow || called) closed hit) /\
+  (* the closed flag is read under the mutex, after the allow callback *)
+  match announce_announceCheck T isnil called hit allow closed with
+  | FReturn _ tr => (isnil allow || called) = true ->
+                    tr = ["r.announceMutex.Lock()"; "defer r.announceMutex.Unlock()"]%string
+  | _ => False
+  end.
+Proof. exact GenTie_C16.tie_announceCheck_closed. Qed.
+Print Assumptions gen_tie_announceCheck_closed.
+
+Theorem gen_model_direct_closed : forall (s : st) (t : nat) (th : thread) (c : nat),
+  (t_pc th = DiAllow -> step_thread s t th c =
+     if call_allowed (t_call th) then goto s t th DiLock else ret s t th RetIgnored) /\
+  (t_pc th = DiCheck -> step_thread s t th c =
+     if closed s then goto s t th DiUnlockClosed else goto s t th DiUpdate) /\
+  (t_pc th = DiUnlockClosed -> step_thread s t th c = ret (with_mu s None) t th RetClosed).
+Proof. exact GenTie_C16.model_direct_closed. Qed.
+Print Assumptions gen_model_direct_closed.
